@@ -96,6 +96,7 @@ func runC17(c *report.Ctx) {
 	ruleTipFromTransaction(c)
 	ruleOneReadTransaction(c)
 	ruleHeightFromSameReadTransaction(c)
+	ruleParkedHandlerOnlyWaits(c)
 	ruleSingleIteratorScan(c)
 }
 
